@@ -169,3 +169,39 @@ Print Assumptions C16_source_builtin_types_expose_sbe_defaults.
 Theorem C16_source_wrapper_of_each_primitive : stmt_src_wrappers.
 Proof. exact src_wrappers. Qed.
 Print Assumptions C16_source_wrapper_of_each_primitive.
+
+(* ---- optional_base<T, Derived> of /repo's CURRENT sbepp.hpp as clang types it
+   (SrcExprs.v, regenerated on every run by harness/srcexprs.py; every call
+   inlined; Derived::min/max/null_value() are arbitrary values of T), for the
+   eight integer types: has_value, in_range and the six pre-C++20 comparison
+   operators follow the documented rules for ALL values ---- *)
+From Coq Require Import String List.
+From Sbepp Require Import CInt CExpr SrcExprs SrcExprsProofs.
+Import ListNotations.
+
+Theorem C16_source_optional_follows_documented_rules : forall f T v1 v2 null mn mx,
+  in_range T v1 = true -> in_range T v2 = true -> in_range T null = true ->
+  in_range T mn = true -> in_range T mx = true ->
+  effs_eval (opt_env f v1 v2 null mn mx) (src_opt f T) = Some [zb (opt_spec f v1 v2 null mn mx)].
+Proof. exact src_opt_is_spec. Qed.
+Print Assumptions C16_source_optional_follows_documented_rules.
+
+(* the rules, spelled out (what opt_spec says): null equals only null and orders before every value *)
+Theorem C16_documented_rules_spelled_out : forall v1 v2 null mn mx,
+  opt_spec FHas v1 v2 null mn mx = negb (Z.eqb v1 null) /\
+  (Z.eqb v1 null = true -> Z.eqb v2 null = false ->
+     opt_spec FEq v1 v2 null mn mx = false /\ opt_spec FLt v1 v2 null mn mx = true /\
+     opt_spec FLe v1 v2 null mn mx = true /\ opt_spec FGt v1 v2 null mn mx = false /\
+     opt_spec FGe v1 v2 null mn mx = false /\ opt_spec FNe v1 v2 null mn mx = true) /\
+  (Z.eqb v1 null = true -> Z.eqb v2 null = true ->
+     opt_spec FEq v1 v2 null mn mx = true /\ opt_spec FLt v1 v2 null mn mx = false /\
+     opt_spec FLe v1 v2 null mn mx = true /\ opt_spec FGe v1 v2 null mn mx = true) /\
+  (Z.eqb v1 null = false -> Z.eqb v2 null = false ->
+     opt_spec FEq v1 v2 null mn mx = Z.eqb v1 v2 /\ opt_spec FLt v1 v2 null mn mx = Z.ltb v1 v2 /\
+     opt_spec FLe v1 v2 null mn mx = Z.leb v1 v2 /\ opt_spec FGt v1 v2 null mn mx = Z.ltb v2 v1 /\
+     opt_spec FGe v1 v2 null mn mx = Z.leb v2 v1 /\ opt_spec FNe v1 v2 null mn mx = negb (Z.eqb v1 v2)).
+Proof.
+  intros v1 v2 null mn mx. unfold opt_spec.
+  split; [reflexivity|]. split; [|split]; intros E1 E2; rewrite E1, E2; cbn; repeat split; reflexivity.
+Qed.
+Print Assumptions C16_documented_rules_spelled_out.
